@@ -22,6 +22,7 @@ import (
 	"fmt"
 	"github.com/gokrazy/rsync/internal/rsyncdconfig"
 	"io"
+	"io/fs"
 	"net"
 	"os"
 	"path/filepath"
@@ -300,6 +301,42 @@ func classifyFrame(msg string) string {
 	}
 }
 
+// shortFS: an fs.FS module with a file that claims to be longer than what it delivers when it is read (it shrank after
+// it was listed, or the file system lies)
+type shortFS struct{ fstest.MapFS }
+
+type shortFile struct {
+	fs.File
+	claim int64
+}
+
+type shortInfo struct {
+	fs.FileInfo
+	claim int64
+}
+
+func (i shortInfo) Size() int64 { return i.claim }
+func (f *shortFile) Stat() (fs.FileInfo, error) {
+	fi, err := f.File.Stat()
+	if err != nil {
+		return nil, err
+	}
+	return shortInfo{fi, f.claim}, nil
+}
+func (f *shortFile) Seek(off int64, whence int) (int64, error) {
+	if sk, ok := f.File.(io.Seeker); ok {
+		return sk.Seek(off, whence)
+	}
+	return 0, fmt.Errorf("not seekable")
+}
+func (s shortFS) Open(name string) (fs.File, error) {
+	f, err := s.MapFS.Open(name)
+	if err == nil && name == "short.bin" {
+		return &shortFile{File: f, claim: 200 * 1024}, nil
+	}
+	return f, err
+}
+
 func suiteDaemon(h *H) {
 	os.Stderr = devNull
 	base, err := os.MkdirTemp("", "verif-daemon")
@@ -399,7 +436,8 @@ func suiteDaemon(h *H) {
 		mk(filepath.Join(dir, "a.txt"), "inside-a-"+tag)
 		mk(filepath.Join(dir, "sub", "inner.txt"), "inside-inner-"+tag)
 		mk(filepath.Join(dir, "sub", "deep", "x"), "inside-x-"+tag)
-		for _, f := range []string{"a.txt", "sub/inner.txt", "sub/deep/x"} {
+		mk(filepath.Join(dir, "big.txt"), strings.Repeat("inside-big-"+tag+"\n", 8000)) // ~100 KiB carrying the module's tag throughout
+		for _, f := range []string{"a.txt", "sub/inner.txt", "sub/deep/x", "big.txt"} {
 			os.Chtimes(filepath.Join(dir, f), modT, modT)
 		}
 		os.Symlink("../../outside", filepath.Join(dir, "lout"))
@@ -421,12 +459,13 @@ func suiteDaemon(h *H) {
 		{Name: "m", Path: filepath.Join(mods, "m")},
 		{Name: "mx", Path: filepath.Join(mods, "mx")},
 		{Name: "fsmod", FS: mapfs},
+		{Name: "fsshort", FS: shortFS{fstest.MapFS{"short.bin": {Data: bytes.Repeat([]byte("short-own-content\n"), 220), Mode: 0o644}}}},
 		{Name: "deny", Path: filepath.Join(mods, "ro"), ACL: []string{"deny all"}},
 		// one directory exported twice: writable under one name, read-only under another
 		{Name: "sh-rw", Path: filepath.Join(mods, "shared"), Writable: true},
 		{Name: "sh-ro", Path: filepath.Join(mods, "shared")},
 	}
-	dm := []dmod{{"ro", false, false, true}, {"rw", true, false, true}, {"m", false, false, true}, {"mx", false, false, true}, {"fsmod", false, true, true}, {"deny", false, false, false}, {"sh-rw", true, false, true}, {"sh-ro", false, false, true}}
+	dm := []dmod{{"ro", false, false, true}, {"rw", true, false, true}, {"m", false, false, true}, {"mx", false, false, true}, {"fsmod", false, true, true}, {"fsshort", false, true, true}, {"deny", false, false, false}, {"sh-rw", true, false, true}, {"sh-ro", false, false, true}}
 	var modSpec []string
 	for _, m := range dm {
 		w, k, a := "r", "dir", "allow"
@@ -580,6 +619,25 @@ func suiteDaemon(h *H) {
 				for _, stem := range []string{"inside-a-", "inside-inner-", "inside-x-"} {
 					if bytes.Contains(res.raw, []byte(stem+tagOf(other))) {
 						v = fmt.Sprintf("FAIL[C06] the daemon's answer to a request for module %s contains the content of module %s's file (%q)", second, other, stem+tagOf(other))
+					}
+				}
+			}
+			h.emit(line, res.class, v, true)
+			h.stat("daemon.xreq")
+			// a whole-file transfer of everything in one module, then a delta request for the file of another module
+			// that delivers less than it claims: nothing of the first module in the answer
+			talkRequests = nil
+			talk(addr, "@RSYNCD: 27", first, []string{"--server", "--sender", "-rl", ".", first + "/"}, "pull", refOpts{links: true}, false, "", nil)
+			talkRequests = deltaReq(func(e refEntry) bool { return e.mode&sIFMT == sIFREG })
+			line = fmt.Sprintf("!daemon-xreq seed=%d round=%d after=%s module=fsshort", h.seed, round, first)
+			h.begin(line)
+			res = talk(addr, "@RSYNCD: 27", "fsshort", []string{"--server", "--sender", "-rl", ".", "fsshort/"}, "pull", refOpts{links: true}, false, "", nil)
+			talkRequests = nil
+			v = leak(res.raw)
+			for _, other := range []string{"ro", "rw", "m", "mx"} {
+				for _, stem := range []string{"inside-a-", "inside-inner-", "inside-x-", "inside-big-"} {
+					if v == "" && bytes.Contains(res.raw, []byte(stem+tagOf(other))) {
+						v = fmt.Sprintf("FAIL[C06] the daemon's answer to a request for module fsshort contains the content of module %s's file (%q)", other, stem+tagOf(other))
 					}
 				}
 			}
